@@ -20,7 +20,9 @@ RULE = (
     "stacked instrumentations start in order and end reversed. "
     "A quarter of the parseable requests are pre-parsed Documents; stacks contain nested stacks, "
     "half of them subclasses with recording hooks of their own; type resolvers may raise the "
-    "resolver error (one field end hook).  "
+    "resolver error (one field end hook). Subscriptions over streams of 2-4 events (asyncio runtime) are checked "
+    "per event: the slice of the log between two results must hold one field start and one field end per "
+    "field the reference executor resolves for that event.  "
     "Non-trivial = distinct (request, "
     "configuration, schedule) with >= 2 resolved fields or a failing stage."
 )
@@ -107,10 +109,22 @@ def run(ctx):
                     except Exception:
                         request = text
                 expected_stages = [st for st in EXPECTED_STAGES[cls] if st != "parsing" or request is text]
+                # half of the requests configure middleware *objects* that are equal to, but not the same as, those
+                # of every other request: each request must run through its own instances
+                equal_mw = n_mw > 0 and rng.random() < 0.5
+                base["middleware_objects_equal_across_requests"] = equal_mw
+                run_ids = [0]
                 for config in configs:
                     def extra():
+                        run_ids[0] += 1
+                        rid = (id(run_ids), run_ids[0])
+                        run_ids.append(rid)
+                        if equal_mw:
+                            mws = [instr_mon.EqualMiddleware(log, i, rid) for i in range(n_mw)]
+                        else:
+                            mws = [instr_mon.make_middleware(log, i) for i in range(n_mw)]
                         return {"instrumentation": instr_mon.make_instrumentations(log, n_instr, [p for p in partials if p[2] >= 0], nest),
-                                "middlewares": [instr_mon.make_middleware(log, i) for i in range(n_mw)]}
+                                "middlewares": mws}
 
                     def run_with(ch, config=config, eager=False):
                         log.events = []
@@ -137,6 +151,12 @@ def run(ctx):
                             ctx.violation("no-result:%s:%s" % (config, out[0]), w, repr(out[1])[:300])
                             break
                         problems = instr_mon.check_stage_grammar(events, n_instr)
+                        if equal_mw:
+                            ctx.count("runs_with_equal_middleware_objects")
+                            stale = [e for e in events if e["ev"] == "mw" and e.get("run") != run_ids[-1]]
+                            if stale:
+                                problems.append(("middleware:instance-configured-for-another-request-invoked",
+                                                 "path %r" % (list(stale[0]["path"]),)))
                         if partials:
                             ctx.count("runs_with_partial_members")
                             problems += instr_mon.check_partials(events, partials)
@@ -175,8 +195,107 @@ def run(ctx):
                         ctx.sample(cls + ":" + config, {"document": text[:200], "events": [
                             (e["ev"], e.get("stage") or list(e.get("path", ())), e.get("edge"), e.get("tag", e.get("idx")))
                             for e in log.events[:14]]})
+    subscriptions(ctx, log, ctx.n(10))
+    ctx.require("subscription_events_checked", 10)
     ctx.require("class:executed", 20)
     ctx.require("class:syntax", 5)
     ctx.require("class:validation", 5)
     ctx.require("fields_expected", 50)
     ctx.require("middleware_traversals", 50)
+
+
+def subscriptions(ctx, log, n_cases):
+    """Subscriptions are requests too: one executor serves every event of a stream, and the field hooks must
+    fire once per resolved field for *each* event (same offline checker, applied to the slice of the log that
+    belongs to the event)."""
+    import asyncio
+
+    from py_gql.execution import subscribe
+    from py_gql.execution.runtime import AsyncIORuntime
+    from py_gql.lang import parse
+
+    from ..gen.world import Obj
+    from .c17 import Source, SubCase
+
+    rng = ctx.rng("subscriptions")
+    loop = asyncio.new_event_loop()
+    try:
+        for ci in range(n_cases):
+            case = SubCase(rng, "c16s:%d:%d:%d" % (ctx.seed, ctx.shard, ci))
+            case.binding.log = log
+            try:
+                case.schema.validate()
+            except Exception:
+                continue
+            sub_type = case.ir.types[case.ir.subscription]
+            usable = [f.name for f in sub_type.fields if f.name not in case.no_sub_resolver]
+            for ri in range(3):
+                g = opgen.OpGen(rng, case.ir, max_depth=rng.choice([2, 3]))
+                for _ in range(20):
+                    g.doc = opgen.ODoc()
+                    op = g.operation(kind="subscription", name="S")
+                    if op.selection[0].name in usable:
+                        break
+                else:
+                    continue
+                doc = g.doc
+                text = opgen.document_text(doc)
+                variables = opgen.variable_values(rng, case.sg, op, nested=doc.nested_vars)
+                n_events = rng.choice([2, 3, 4])
+                events = [Obj(case.ir.subscription, "evt-%d-%d-%d" % (ci, ri, k)) for k in range(n_events)]
+                if rng.random() < 0.3:
+                    events[1] = events[0]          # the same payload twice in a row
+                refs = [refexec.reference_result(case.ir, doc, op, variables, case.world, root=e) for e in events]
+                if any(r[0] != "ok" for r in refs):
+                    ctx.abstain("subscription-reference:" + [r[0] for r in refs if r[0] != "ok"][0])
+                    continue
+                case.source = Source([case.binding.to_python(e) for e in events], rng, as_class=rng.random() < 0.5)
+                n_instr = rng.randint(1, 3)
+                rt = AsyncIORuntime(loop=loop, execute_blocking_functions_in_thread=False)
+                witness = {"schema_sdl": case.sdl, "world_seed": case.world.seed, "document": text, "variables": variables,
+                           "events": n_events, "instrumentations": n_instr, "class": "subscription"}
+                slices = []
+
+                async def go():
+                    log.events = []
+                    stream = await subscribe(case.schema, parse(text), variables=variables, operation_name="S", runtime=rt,
+                                             instrumentation=instr_mon.make_instrumentations(log, n_instr))
+                    it = stream.__aiter__()
+                    while True:
+                        log.events = []
+                        try:
+                            await it.__anext__()
+                        except StopAsyncIteration:
+                            break
+                        slices.append(list(log.events))
+
+                ctx.evaluated()
+                try:
+                    loop.run_until_complete(asyncio.wait_for(go(), 60))
+                except asyncio.TimeoutError:
+                    ctx.mark_inconclusive("subscription stream exceeded the watchdog")
+                    continue
+                except Exception as e:
+                    from py_gql.exc import CoercionError
+
+                    if isinstance(e, CoercionError):
+                        ctx.abstain("subscription refused: root field arguments cannot be coerced (judged by C17)")
+                        continue
+                    ctx.violation("subscription:raises:%s" % type(e).__name__, witness, repr(e)[:300])
+                    continue
+                ctx.count("class:subscription")
+                if len(slices) != n_events:
+                    ctx.observe("subscription stream length differs from the source (judged by C17)")
+                    continue
+                for k, (evs, ref) in enumerate(zip(slices, refs)):
+                    ctx.count("subscription_events_checked")
+                    no_call = set(tuple(p) for p, kind in ref[2] if kind == "argument")
+                    problems = instr_mon.check_fields(evs, ref[3].visited, 0, no_call_paths=no_call, aborted=ref[3].type_failures)
+                    for key, detail in problems[:2]:
+                        ctx.violation("subscription:%s" % key, dict(witness, event_index=k), detail)
+                    if problems:
+                        break
+                if n_events >= 2:
+                    ctx.mark_nontrivial([case.sdl, text, variables, "subscription", n_events])
+    finally:
+        loop.close()
